@@ -357,6 +357,11 @@ def groupCore (aggs : List PAgg) (src : Query) (g : GroupBlock) (t : List Row) :
     below them is evaluated (and no run-time error of theirs can surface) -/
 def isLimit0 (l : Option Nat) : Bool := l == some 0
 
+/-- some block of the grouping query has `LIMIT 0` -/
+def GQuery.hasLimit0 : GQuery → Bool
+  | .group _ g => isLimit0 g.limit
+  | .sel src b => isLimit0 b.limit || src.hasLimit0
+
 /-- nested position: ORDER BY / LIMIT become an OrderSensitiveTransform / a Limit node -/
 def denoteGNested (tys : List Ty) : GQuery → List Row → Res (List Row)
   | .group src g, t =>
